@@ -247,4 +247,5 @@ def targeted(rng, owner):
             out.append(['V1 a 0 step 2', 'R1 a b 1', 'R2 b 0 2', 'R3 b c 1', 'R4 c 0 1', 'SP1 %s b c o' % sig, 'R5 o 0 2'])
         else:
             out.append(['V1 a 0 step 2', 'R1 a b 1', 'R2 b 0 2', 'R3 b c 1', 'R4 c 0 1', 'R6 c d 2', 'R7 d 0 2', 'SP1 %s b c o d' % sig, 'R5 o 0 2'])
-    return out
+    # a reactive element forces a Laplace-domain analysis (exact rational values at s0)
+    return [l + ['C0 b 0 1'] if any(x.split()[1] == 'b' or x.split()[2] == 'b' for x in l if len(x.split()) > 2) else l + ['C0 a 0 1'] for l in out]
